@@ -12,7 +12,7 @@ LabelsX == {"", "x"}
 LabelsXY == {"", "x", "y"}
 Pwds2 == {"p", "q"}
 Schemes2 == {"SHA256withECDSA", "SHA3-256withECDSA"}
-ActsAll == {"New", "Import", "Delete", "SetDefault", "SetLabel", "ChangePassword", "ChangeScheme", "Reload"}
+ActsAll == {"New", "Import", "Delete", "SetDefault", "SetLabel", "ChangePassword", "ChangeScheme", "Reload", "SetFault", "ClearFault"}
 ActsNoNew == ActsAll \ {"New"}
 
 Edge == PrintT(<<"EDGE", ToJson([from |-> State, act |-> act', to |-> State'])>>)
